@@ -1339,6 +1339,13 @@ DONE:
 	mpq_clear (a); mpq_clear (b); mpq_clear (c);
 }
 
+/* QSX_LOG=1: library log messages go to stderr (diagnosis of failing calls) */
+static void log_echo (const char *msg, void *data)
+{
+	(void) data;
+	fprintf (stderr, "LOG %s\n", msg);
+}
+
 int main (int argc, char **argv)
 {
 	FILE *in = stdin;
@@ -1346,7 +1353,7 @@ int main (int argc, char **argv)
 	size_t cap = 0;
 	(void) argc; (void) argv;
 	QSexactStart ();
-	QSlog_set_handler (qsx_log_sink, NULL);
+	QSlog_set_handler (getenv ("QSX_LOG") ? log_echo : qsx_log_sink, NULL);
 	T = (char **) malloc (sizeof (char *) * QSX_MAXTOK);
 	printf ("M "); mpq_out_str (stdout, 10, mpq_ILL_MAXDOUBLE); putchar ('\n');
 	fflush (stdout);
